@@ -156,7 +156,9 @@ Inductive rpc :=
 | RIdle
 | RScheduling     (* Schedule: waitGroup.Add(1) done, blocked on the send into limitChan *)
 | RWaitingWg.     (* Wait: blocked in waitGroup.Wait() until the counter is zero *)
-Inductive tstate := TSpawned | TRunning | TDone.
+(* the epilogue of a task goroutine (rescue.Recover's cleanup) in its real order: first
+   <-limitChan (TRunning -> TReleased), then waitGroup.Done() (TReleased -> TDone) *)
+Inductive tstate := TSpawned | TRunning | TReleased | TDone.
 
 Record rthread := mkRT { rpcof : rpc; rscript : list rop; ropi : nat; rres : list Z }.
 Record task := mkTask { tst : tstate; tpanics : bool }.
@@ -211,8 +213,10 @@ Definition rstep (s : rstate) (x : nat) : option rstate :=
     | Some tk =>
       match tst tk with
       | TSpawned => Some (mkRS (rcap s) (rc s) (rwg s) (upd_nth (rtasks s) k (mkTask TRunning (tpanics tk))) (rthreads s))
-      | TRunning =>  (* task returns or panics; rescue.Recover's cleanup: <-limitChan; waitGroup.Done *)
-        Some (mkRS (rcap s) (pred (rc s)) (pred (rwg s)) (upd_nth (rtasks s) k (mkTask TDone (tpanics tk))) (rthreads s))
+      | TRunning =>  (* task returns or panics; rescue.Recover's cleanup, first step: <-limitChan *)
+        Some (mkRS (rcap s) (pred (rc s)) (rwg s) (upd_nth (rtasks s) k (mkTask TReleased (tpanics tk))) (rthreads s))
+      | TReleased => (* ... second step: waitGroup.Done() *)
+        Some (mkRS (rcap s) (rc s) (pred (rwg s)) (upd_nth (rtasks s) k (mkTask TDone (tpanics tk))) (rthreads s))
       | TDone => None
       end
     | None => None
@@ -222,9 +226,13 @@ Definition rexec (n : nat) (scripts : list (list rop)) (sched : list nat) : rsta
   run rstep (rinit n scripts) sched.
 
 Definition is_running (tk : task) : nat := match tst tk with TRunning => 1 | _ => 0 end.
-Definition is_live (tk : task) : nat := match tst tk with TDone => 0 | _ => 1 end.
+(* holds a slot *)
+Definition is_live (tk : task) : nat := match tst tk with TSpawned | TRunning => 1 | _ => 0 end.
+(* slot given back, still counted by the WaitGroup *)
+Definition is_released (tk : task) : nat := match tst tk with TReleased => 1 | _ => 0 end.
 Definition rrunning (s : rstate) : nat := sumf is_running (rtasks s).
 Definition rlive (s : rstate) : nat := sumf is_live (rtasks s).
+Definition rreleased (s : rstate) : nat := sumf is_released (rtasks s).
 Definition rscheduling (s : rstate) : nat :=
   sumf (fun th => match rpcof th with RScheduling => 1 | _ => 0 end) (rthreads s).
 
